@@ -287,12 +287,7 @@ func VerifLemma_C01F_BuildImage() {
 		if len(wantUnused) > 0 {
 			verifCover("target file with an unused import")
 		}
-		verifAssert(len(gotUnused) == len(wantUnused), "unused dependency index count")
-		if len(gotUnused) == len(wantUnused) {
-			for x := range wantUnused {
-				verifAssert(gotUnused[x] == wantUnused[x], "unused dependency indexes are the positions of the unused imports")
-			}
-		}
+		verifAssert(refFSameUnusedIndexes(gotUnused, wantUnused), "unused dependency indexes are the positions of the unused imports")
 		deps := imageFile.FileDescriptorProto().GetDependency()
 		wantDeps := w.vfImportsOf(i)
 		verifAssert(len(deps) == len(wantDeps), "descriptor lists the imports")
